@@ -62,7 +62,7 @@ func (t *Target) AccessDeniedHTTP(r *http.Request) bool {
 			if xip == host {
 				continue
 			}
-			if ip = net.ParseIP(xip); ip == nil {
+			if ip = parseForwardedIP(xip); ip == nil {
 				log.Printf("[WARN] failed to parse xff address %s", xip)
 				continue
 			}
@@ -74,6 +74,27 @@ func (t *Target) AccessDeniedHTTP(r *http.Request) bool {
 
 	// default allow
 	return false
+}
+
+// parseForwardedIP returns the address of an X-Forwarded-For element. Besides
+// the plain form it understands the other spellings proxies use for the same
+// address: "1.2.3.4:80", "[::1]", "[::1]:80" and a zone-scoped "fe80::1%eth0"
+// which - like the peer address - is matched without its zone.
+func parseForwardedIP(s string) net.IP {
+	switch {
+	case strings.HasPrefix(s, "["):
+		n := strings.IndexByte(s, ']')
+		if n < 0 || (n+1 < len(s) && s[n+1] != ':') {
+			return nil
+		}
+		s = s[1:n]
+	case strings.Count(s, ":") == 1:
+		s = s[:strings.IndexByte(s, ':')]
+	}
+	if n := strings.IndexByte(s, '%'); n >= 0 {
+		s = s[:n]
+	}
+	return net.ParseIP(s)
 }
 
 // AccessDeniedTCP checks rules on the target for TCP proxy routes.
